@@ -1,6 +1,6 @@
-\* C13 thorough tier: larger bounds, more and longer random cases (about 550 k cases).
+\* C13 thorough tier: larger bounds, more and longer random cases (about 290 k cases).
 SPECIFICATION Spec
 CONSTANTS LEval = 5  LEvalX = 4  LPair = 3  LScal = 4  LDivA = 4  LDivB = 3  LSyn = 5  LSynR = 4
-          LInt = 4  LRoots = 5  LDeg = 6  NRand = 60  RandLen = 24
+          LInt = 3  LRoots = 5  LDeg = 6  NRand = 150  RandLen = 24
 ACTION_CONSTRAINT Emit
 CHECK_DEADLOCK FALSE
